@@ -206,7 +206,7 @@ func checkSpec(o *observation) ([]finding, *analysis) {
 		}
 	}
 	if !o.Recovered {
-		add("recovers:"+mode+":no-delivery-after-faults", "after the fault script ended, none of 6 further packs was received (%d connections accepted)", len(o.Conns))
+		add("recovers:"+mode+":no-delivery-after-faults", "after the fault script ended, none of %d further packs (handed over more than 20 s) was received (%d connections accepted)", o.Attempts, len(o.Conns))
 	}
 	for _, p := range o.Panics {
 		add("send:"+mode+":panic", "Send panicked: %s", vh.Clip(p, 200))
